@@ -11,10 +11,76 @@ PROFILE = dict(blob=4, chunked=5, mount=2, image=3, index=1, artifact=1, mread=2
                mdel=0.5, bdel=0.5, sess=1, bad=2.5)
 
 
+ALGS = ["sha256", "sha384", "sha512"]
+
+
+def store_level_case(rng, cid, conf):
+    """what two handlers working on one upload session do, in orders the scheduler would have to choose: writes after a
+    (successful or refused) Verify, algorithm changes with and without content, second handles on a session, Close / Cancel"""
+    repo = rng.choice(["a", "a/b"])
+    calls, data, nsess = [], {}, 0
+    ended = set()          # sessions that were closed or cancelled: a handler can only still be streaming into them, or look them up
+    for _ in range(rng.randrange(4, 14)):
+        r = rng.random()
+        if nsess == 0 or r < 0.15:
+            expect = ""
+            if rng.random() < 0.2:
+                expect = dg(rng.choice(ALGS), b"expected-%d" % rng.randrange(3))
+            # (the handlers pass either an algorithm or an expected digest, whose algorithm the session then uses)
+            calls.append(dict(fn="create", alg=(expect.split(":")[0] if expect else rng.choice(["", ""] + ALGS)), digest=expect))
+            data[nsess] = b""
+            nsess += 1
+            continue
+        k = rng.randrange(nsess)
+        if k in ended:
+            calls.append(dict(fn=rng.choice(["write", "session"]), sess=k, data=b"late-chunk"))
+            continue
+        if r < 0.45:
+            d = rng.choice([b"chunk-A", b"chunk-B", b"expected-0", b"expected-1", b"x" * rng.randrange(1, 40)])
+            calls.append(dict(fn="write", sess=k, data=d))
+            data[k] += d
+        elif r < 0.7:
+            alg = rng.choice(ALGS)
+            what = rng.choice(["right", "right", "prefix", "wrong"])
+            body = data[k] if what == "right" else (data[k][:max(0, len(data[k]) - 3)] if what == "prefix" else b"something else")
+            calls.append(dict(fn="verify", sess=k, digest=dg(alg, body)))
+        elif r < 0.78:
+            calls.append(dict(fn="chalg", sess=k, alg=rng.choice(ALGS)))
+        elif r < 0.84:
+            calls.append(dict(fn="session", sess=k))
+        elif r < 0.9:
+            calls.append(dict(fn="info", sess=k))
+        elif r < 0.97:
+            calls.append(dict(fn="close", sess=k))
+            ended.add(k)
+        else:
+            calls.append(dict(fn="cancel", sess=k))
+            ended.add(k)
+    for k in range(nsess):
+        if k not in ended and rng.random() < 0.7:
+            calls.append(dict(fn="close", sess=k))
+    steps = [bc_script(repo, calls)]
+    # every digest a session could have been published under is read back: what is served must hash to its name
+    cands = set()
+    for k, d in data.items():
+        for alg in ALGS:
+            for n in {len(d), max(0, len(d) - 3)} | set(range(0, len(d) + 1, 7)):
+                cands.add(dg(alg, d[:n]))
+    for c in calls:
+        if c["fn"] == "verify":
+            cands.add(c["digest"])
+    for d in sorted(cands)[:40]:
+        steps.append(blob_get(repo, d))
+    return dict(id=cid, conf=conf, steps=steps, contents=[])
+
+
 def make_cases(ctx, first):
     n, steps = (400, 45) if ctx.tier == "quick" else (12000, 60)
     confs = [mkconf(store="mem"), mkconf(store="dir"), mkconf(store="dir", mlimit=600), mkconf(store="mem", referrer=False)]
     cases = apicheck.std_cases(ctx, first, n, steps, confs, profile=PROFILE)
+    nstore = 300 if ctx.tier == "quick" else 10000
+    for i in range(nstore):
+        cases.append(store_level_case(ctx.rng, first + len(cases), confs[i % 2]))
     for c in cases:
         if c["conf"]["store"] == "dir":
             c["steps"].append(special("snapshot", full=True))
